@@ -13,6 +13,8 @@ import json, os, sys
 REPO = os.environ.get("MSQ_REPO", "/repo")
 PKG = os.path.join(REPO, "metasequoia_sql")
 _hits = set()
+_branches = {}     # (module, function, source line, instruction offset) -> {destination line * 1e5 + destination offset}
+_linetabs = {}
 
 
 def start():
@@ -32,8 +34,25 @@ def start():
             _hits.add((fn[len(prefix):], line))
         return mon.DISABLE
 
+    def line_at(code, offset):
+        tab = _linetabs.get(code)
+        if tab is None:
+            tab = _linetabs[code] = [p[0] for p in code.co_positions()]
+        i = offset // 2
+        return tab[i] if 0 <= i < len(tab) and tab[i] is not None else code.co_firstlineno
+
+    def on_branch(code, src, dst):
+        fn = code.co_filename
+        if not fn.startswith(prefix):
+            return mon.DISABLE
+        key = (fn[len(prefix):], code.co_qualname, line_at(code, src), src)
+        seen = _branches.setdefault(key, set())
+        seen.add(line_at(code, dst) * 100000 + dst % 100000)
+        return mon.DISABLE if len(seen) >= 2 else None
+
     mon.register_callback(tool, mon.events.LINE, on_line)
-    mon.set_events(tool, mon.events.LINE)
+    mon.register_callback(tool, mon.events.BRANCH, on_branch)
+    mon.set_events(tool, mon.events.LINE | mon.events.BRANCH)
     import atexit
     atexit.register(dump)
     return True
@@ -76,6 +95,8 @@ def dump():
             by.setdefault(f, []).append(l)
         if _wraps:
             by["#wraps"] = {str(k): v for k, v in _wraps.items()}
+        if _branches:
+            by["#branches"] = [[m, q, l, o, sorted(v)] for (m, q, l, o), v in _branches.items()]
         tmp = os.path.join(d, "%d.tmp" % os.getpid())
         with open(tmp, "w") as f:
             json.dump(by, f)
@@ -132,6 +153,10 @@ def collect(cover_dir, remove=True):
                             c = w.setdefault(int(k), [0, 0])
                             c[0] += a
                             c[1] += b
+                    elif m == "#branches":
+                        b = hits.setdefault("#branches", {})
+                        for mod, q, l, o, dsts in ls:
+                            b.setdefault((mod, q, l, o), set()).update(dsts)
                     else:
                         hits.setdefault(m, set()).update(ls)
             except (OSError, ValueError):
@@ -185,12 +210,17 @@ def summarise(hits, detail_for=H_MODULES, max_funcs=40):
                     never.append("%s:%s" % (m, q))
                 elif hh < e:
                     partly.append("%s:%s %d/%d missing %s" % (m, q, hh, e, _ranges(miss)))
+    br = hits.get("#branches", {})
+    one_way = sorted((m, l, q, sorted(d // 100000 for d in ds)) for (m, q, l, o), ds in br.items() if len(ds) < 2 and any(m.startswith(p) for p in detail_for))
+    brep = {"branch_instructions_executed": len(br), "taken_both_ways": sum(1 for ds in br.values() if len(ds) >= 2),
+            "one_way_only_in_modelled_modules": ["%s:%d [%s] only → line %s" % (m, l, q.split(".")[-1], ",".join(map(str, d))) for m, l, q, d in one_way][:max_funcs]
+            + (["… %d more" % (len(one_way) - max_funcs)] if len(one_way) > max_funcs else [])}
     wraps = hits.get("#wraps", {})
     wsites = wrap_sites()
     wrep = {"sites": len(wsites), "seen_with_brackets_needed": sum(1 for l in wsites if wraps.get(l, [0, 0])[1] > 0),
             "seen_without": sum(1 for l in wsites if wraps.get(l, [0, 0])[0] > 0),
             "never_needed_brackets": ["core/node.py:%d" % l for l in wsites if wraps.get(l, [0, 0])[1] == 0]}
-    return {"printer_bracket_sites": wrep, "tool": "sys.monitoring LINE events in every worker process of this run (function bodies of /repo/metasequoia_sql)",
+    return {"printer_bracket_sites": wrep, "branches": brep, "tool": "sys.monitoring LINE events in every worker process of this run (function bodies of /repo/metasequoia_sql)",
             "total": {"executable": tot_e, "hit": tot_h}, "modules": per,
             "functions_never_entered": never[:max_funcs] + (["… %d more" % (len(never) - max_funcs)] if len(never) > max_funcs else []),
             "functions_partly_executed": partly[:max_funcs] + (["… %d more" % (len(partly) - max_funcs)] if len(partly) > max_funcs else [])}
